@@ -696,6 +696,7 @@ inline void userCode(TC& c, Inst& in, Method m, uint8_t sid) {
 	if constexpr (F == FLV_CONST) { (void) c; return; }
 	else {
 		if (in.policy == POL_PASSIVE) return;
+		if (in.policy == POL_VETO) { if constexpr (F == FLV_GUARD) doCancel(c, in, sid); return; }
 		if (in.policy == POL_HOSTILE) {
 			// a replica / loader: its guards must never be consulted; if they are, they derail everything
 			if constexpr (F == FLV_GUARD) { doCancel(c, in, sid); doChange(c, in, sid, static_cast<uint8_t>(sid == ROOT ? 0 : (sid + 1) % N), false); }
